@@ -2,6 +2,5 @@ SPECIFICATION Spec
 CONSTANTS MaxLen = 2
   Buggy = FALSE
   Wide = TRUE
-  Replay = FALSE
 INVARIANTS Isolation HeapWF ChildSeesOwnWrites EmitPD EmitVec
 PROPERTIES CellDiscipline Frozen
